@@ -425,9 +425,26 @@ fn builtin_part(rep: &mut Report, viol: &mut Viol, drv: &mut Driver, seed: u64, 
     let lp = list.to_string_lossy().to_string();
     let (seed_s, tier) = (seed.to_string(), if thorough { "thorough" } else { "quick" });
     let mut crashes = vec![];
+    // a script that has killed three workers is not run again in this pass:
+    // its id goes to the skip file the batch workers read on start
+    let skip = format!("{lp}.skip");
+    let _ = std::fs::write(&skip, "");
+    let mut per_id: HashMap<String, u32> = HashMap::new();
     run_batches(&["builtin-batch", &seed_s, tier, &lp], batched.len() as u64, 1500, Duration::from_secs(300), rep,
-        |_rep: &mut Report, idx: u64, how: &Ended| crashes.push((idx as usize, how.clone())));
+        |_rep: &mut Report, idx: u64, how: &Ended| {
+            crashes.push((idx as usize, how.clone()));
+            let id = cases[batched[idx as usize]].id.clone();
+            let n = per_id.entry(id.clone()).or_insert(0);
+            *n += 1;
+            if *n == 3 {
+                use std::io::Write;
+                if let Ok(mut f) = std::fs::OpenOptions::new().append(true).open(&skip) {
+                    let _ = writeln!(f, "{id}");
+                }
+            }
+        });
     let _ = std::fs::remove_file(&list);
+    let _ = std::fs::remove_file(&skip);
     for (k, how) in crashes {
         let c = &cases[batched[k]];
         let how = ended_str(&how);
@@ -454,9 +471,14 @@ fn builtin_batch_worker(rep: &mut Report, seed: u64, thorough: bool, list: &str,
     let text = std::fs::read_to_string(list).expect("builtin list");
     let lines: Vec<&str> = text.lines().collect();
     let mut cache: HashMap<String, Result<builtins::Caller, String>> = HashMap::new();
+    let skip: BTreeSet<String> = std::fs::read_to_string(format!("{list}.skip")).unwrap_or_default().lines().map(|l| l.to_string()).collect();
     for k in from..(from + n).min(lines.len()) {
         let (i, expected) = lines[k].split_once(' ').unwrap();
         let c = &cases[i.parse::<usize>().unwrap()];
+        if skip.contains(&c.id) {
+            rep.hist("builtin-not-run(script killed three workers already)", c.id.clone());
+            continue;
+        }
         if !cache.contains_key(&c.src) {
             let f = compile(&c.src).and_then(|mut p| make_caller(&mut p, c.sig));
             if let Err(e) = &f {
